@@ -56,10 +56,18 @@ const F1_SIZE: [u32; 4] = [0, 1, 3, 6];
 const F2_SIZE: [u32; 4] = [0, 1, 2, 4];
 const F2_ADDRS: u64 = 11; // 0..=10
 const N_LINES: u64 = 8;
+/// INLINE menus 0..N_INL go into the big product; N_INL..N_INL_ALL (undefined origins at every
+/// subset of the levels of a three-level nest, an eight-level nest) only into the `nests` and
+/// `stackframe` spaces.
 const N_INL: u64 = 11;
+const N_INL_ALL: u64 = 19;
 const N_F2SUB: u64 = 2;
 const N_PUB: u64 = 9;
+/// STACK WIN menus 0..N_WIN go into the big product; N_WIN..N_WIN_ALL (a FUNC split over several
+/// records, records starting before / in the middle of / reaching beyond the FUNC) only into the
+/// `nests` and `stackframe` spaces.
 const N_WIN: u64 = 4;
+const N_WIN_ALL: u64 = 10;
 const F3_CHOICES: [(u64, u32); 8] = [(0, 1), (0, 3), (5, 1), (5, 3), (8, 1), (8, 3), (12, 1), (12, 3)];
 
 fn line_menu(m: u64, a: u64) -> Vec<LineRec> {
@@ -90,6 +98,26 @@ fn inl_menu(m: u64, a: u64) -> Vec<InlineRec> {
         8 => vec![i(0, 1, 1, 1, &[(a, 4)]), i(0, 2, 1, 2, &[(a + 2, 0)])], // empty range inside another at the same depth
         9 => vec![i(0, 2, 1, 1, &[(a, 2), (a + 2, 2)]), i(1, 1, 1, 2, &[(a + 1, 2)])], // depth-1 range across two adjacent depth-0 ranges
         10 => vec![i(0, 1, 1, 1, &[(a, 2)]), i(0, 2, 1, 1, &[(a, 2)])], // same (depth, address) twice
+        // 11..=17: the three-level nest of menu 3 (three levels at a+1, two at a and a+3, one at a+2)
+        // with the origin of every non-empty subset of the levels defined nowhere (bit k of m-10 =
+        // level k dangles; ids 7, 8, 9): outermost only, middle only, innermost only, two of three, all
+        11..=17 => {
+            let mask = m - 10;
+            let o = |level: u32, defined: u32| if mask >> level & 1 == 1 { 7 + level } else { defined };
+            vec![i(0, 1, 1, o(0, 1), &[(a, 4)]), i(1, 2, 1, o(1, 2), &[(a, 2), (a + 3, 1)]), i(2, 1, 1, o(2, 3), &[(a + 1, 1)])]
+        }
+        // eight levels (depth 0..=7) shrinking towards a+2; the origins of levels 3 and 7 dangle, the
+        // others repeat in1..in3 (recursive inlining)
+        18 => vec![
+            i(0, 1, 1, 1, &[(a, 6)]),
+            i(1, 2, 1, 2, &[(a, 5)]),
+            i(2, 3, 1, 3, &[(a, 5)]),
+            i(3, 4, 1, 7, &[(a + 1, 4)]),
+            i(4, 5, 1, 1, &[(a + 1, 3)]),
+            i(5, 6, 1, 2, &[(a + 1, 2)]),
+            i(6, 7, 1, 3, &[(a + 2, 1)]),
+            i(7, 8, 1, 8, &[(a + 2, 1)]),
+        ],
         _ => unreachable!(),
     }
 }
@@ -115,6 +143,12 @@ fn win_menu(m: u64, a1: u64) -> Vec<WinRec> {
         1 => vec![w4(a1, 2, 0x44)],
         2 => vec![w0(a1 + 1, 2, 0x20)],
         3 => vec![w0(a1, 3, 0x20), w4(a1, 1, 0x44)],
+        4 => vec![w4(a1, 1, 0x44), w4(a1 + 1, 2, 0x48)], // the FUNC split over two frame-data records
+        5 => vec![w0(a1, 2, 0x20), w4(a1 + 1, 1, 0x44)], // FPO at the entry, frame data only further in
+        6 => vec![w4(a1 + 2, 4, 0x44)],                  // starts inside the FUNC, nothing at its entry, reaches beyond sizes 1, 3
+        7 => vec![w4(a1 - 1, 2, 0x44)],                  // starts before the FUNC, covers only its first byte
+        8 => vec![w0(a1, 1, 0x20), w0(a1 + 1, 1, 0x24), w4(a1 + 2, 1, 0x44)], // three pieces of two types
+        9 => vec![w0(a1 + 1, 1, 0x20), w4(a1 + 2, 1, 0x44), w4(a1 + 4, 2, 0x48)], // pieces with gaps, entry uncovered
         _ => unreachable!(),
     }
 }
@@ -216,6 +250,15 @@ fn covers(addr: u64, size: u32, off: u64) -> bool {
 fn inl_at<'a>(f: &'a FuncRec, depth: u32, off: u64) -> Vec<(&'a InlineRec, (u64, u32))> {
     f.inlines.iter().filter(|i| i.depth == depth).flat_map(|i| i.ranges.iter().map(move |r| (i, *r))).filter(|(_, r)| covers(r.0, r.1, off)).collect()
 }
+/// The nest of inlined calls covering `off`: the first covering record of depth 0, 1, 2, .. up to the
+/// first depth at which nothing covers it.
+fn inline_chain(f: &FuncRec, off: u64) -> Vec<(&InlineRec, (u64, u32))> {
+    let mut chain = vec![];
+    while let Some(&x) = inl_at(f, chain.len() as u32, off).first() {
+        chain.push(x);
+    }
+    chain
+}
 fn lines_at(f: &FuncRec, off: u64) -> Vec<&LineRec> {
     f.lines.iter().filter(|l| covers(l.addr, l.size, off)).collect()
 }
@@ -292,7 +335,8 @@ enum Expect {
 
 /// Linear-scan lookup for files whose records do not overlap (precondition: `file_is_exact`
 /// and, for the FUNC covering the address, `!func_is_ambiguous`).
-fn reference(m: &SymModel, base: u64, ip: u64) -> Expect {
+/// `tags` receives labels of the case class (evidence only).
+fn reference(m: &SymModel, base: u64, ip: u64, tags: &mut Vec<&'static str>) -> Expect {
     let none = Rec { ip, ..Default::default() };
     if ip < base {
         return Expect::Exactly(none);
@@ -302,28 +346,42 @@ fn reference(m: &SymModel, base: u64, ip: u64) -> Expect {
     let covering: Vec<&FuncRec> = m.funcs.iter().filter(|f| func_range(f).is_some_and(|r| r.0 <= off && off <= r.1)).collect();
     assert!(covering.len() <= 1, "reference() called on a file with overlapping FUNCs");
     if let Some(f) = covering.first() {
-        let param = wins_of(m, 4).iter().find(|w| covers(w.addr, w.size, off)).map(|w| w.param).or_else(|| wins_of(m, 0).iter().find(|w| covers(w.addr, w.size, off)).map(|w| w.param)).unwrap_or(f.param);
+        // the STACK WIN record covering *the address*: frame data (4) before FPO (0); else the FUNC's own value
+        let win_at = |x: u64| wins_of(m, 4).into_iter().find(|w| covers(w.addr, w.size, x)).or_else(|| wins_of(m, 0).into_iter().find(|w| covers(w.addr, w.size, x)));
+        let param = win_at(off).map_or(f.param, |w| w.param);
+        if !m.wins.is_empty() && win_at(off).map(|w| (w.ty, w.addr)) != win_at(f.addr).map(|w| (w.ty, w.addr)) {
+            tags.push("STACK-WIN-at-address-is-not-the-one-at-FUNC-entry");
+        }
         exp.func = Some((f.name.clone(), base + f.addr, param));
         let line = lines_at(f, off).first().copied();
-        if let Some(&(rec, (ra, _))) = inl_at(f, 0, off).first() {
+        let chain = inline_chain(f, off);
+        if let Some(&(rec, (ra, _))) = chain.first() {
             if let Some(n) = file_name(m, rec.call_file) {
                 exp.src = Some((n, rec.call_line, base + ra));
             }
-            let mut origin = rec.origin;
-            let mut depth = 1;
-            while let Some(&(inner, _)) = inl_at(f, depth, off).first() {
-                if let Some(n) = origin_name(m, origin) {
-                    exp.inl.push((n, file_name(m, inner.call_file), Some(inner.call_line)));
+            // level k is a call of chain[k].origin; the location *inside* it is the call site of level k+1,
+            // for the innermost level the line record.  A level whose origin id has no INLINE_ORIGIN record
+            // yields no frame for that level and nothing else changes.
+            let mut skipped = false;
+            for (k, (rec, _)) in chain.iter().enumerate() {
+                let Some(n) = origin_name(m, rec.origin) else {
+                    skipped = true;
+                    if k + 1 == chain.len() {
+                        tags.push("innermost-inline-level-has-undefined-origin");
+                    }
+                    continue;
+                };
+                if skipped {
+                    skipped = false;
+                    tags.push("inline-frame-nested-in-a-level-with-undefined-origin");
                 }
-                origin = inner.origin;
-                depth += 1;
-            }
-            let (lf, ll) = match line {
-                Some(l) => (file_name(m, l.file), if l.line != 0 { Some(l.line) } else { None }),
-                None => (None, None),
-            };
-            if let Some(n) = origin_name(m, origin) {
-                exp.inl.push((n, lf, ll));
+                match chain.get(k + 1) {
+                    Some((inner, _)) => exp.inl.push((n, file_name(m, inner.call_file), Some(inner.call_line))),
+                    None => match line {
+                        Some(l) => exp.inl.push((n, file_name(m, l.file), if l.line != 0 { Some(l.line) } else { None })),
+                        None => exp.inl.push((n, None, None)),
+                    },
+                }
             }
         } else if let Some(l) = line {
             if let Some(n) = file_name(m, l.file) {
@@ -461,7 +519,8 @@ fn check_bases(l: &mut Local, m: &SymModel, base: u64, ip: u64, got: &Rec) {
 }
 
 fn check_exact(l: &mut Local, m: &SymModel, base: u64, ip: u64, got: &Rec) {
-    let exp = match reference(m, base, ip) {
+    let mut tags = vec![];
+    let exp = match reference(m, base, ip, &mut tags) {
         Expect::Exactly(e) => e,
         Expect::Either(a, b) => {
             l.outcome("PUBLIC-at-FUNC-start(either)");
@@ -496,6 +555,9 @@ fn check_exact(l: &mut Local, m: &SymModel, base: u64, ip: u64, got: &Rec) {
     l.outcome(class);
     if exp.inl.last().is_some_and(|f| f.2.is_none()) {
         l.outcome("innermost-inline-frame-without-line");
+    }
+    for t in tags {
+        l.outcome(t);
     }
 }
 
@@ -620,7 +682,7 @@ fn stackframe_space(thorough: bool) -> Space {
                     check_weak(l, &m, base, ip, &got);
                     continue;
                 }
-                let exp = match reference(&m, base, ip) {
+                let exp = match reference(&m, base, ip, &mut vec![]) {
                     Expect::Exactly(e) => e,
                     Expect::Either(a, b) => {
                         if got == a {
